@@ -134,6 +134,7 @@ void vf_note(const char *fmt, ...)
     vfprintf(stdout, fmt, ap);
     va_end(ap);
     fputc('\n', stdout);
+    fflush(stdout);
 }
 
 unsigned long vf_exec_begin(void)
